@@ -6,9 +6,16 @@
   fit and `delete_range` are executable models (PM/Fitter.lean, PM/RangeOps.lean) tied exactly to the
   real code; the later theorems prove the monitor's conjuncts about what the *model* emits
   (`fit_range`, the text invariant, `fitter_respects`, the `delete_range` theorems).
-  Totality ("never raises") is NOT a theorem: the model has fuel and error outcomes, every Fitter
-  theorem assumes the run ends in `.ok`; termination and assertion-freeness of the real loops are
-  decided by search.  Helpers: Proofs/Respects.lean, RangeOps.lean, Fitter.lean, FitterText.lean.
+  (3) Totality of the *model*, last sections: the loop of `fit` terminates — the fuel `replaceStep`
+  passes is enough, and `outOfFuel` is answered exactly when the loop reaches the one state it maps
+  to itself (`fitLoop_outOfFuel_exact`, `fitLoop_terminates`, `replaceStep_not_outOfFuel`); the
+  failure classes of `replaceStep` (`replaceStep_failures`); `replaceStep` *returns* for every
+  deletion (`delete_total`, `deleteRange_total`) and for every closed slice of leaf / text nodes
+  (`insertInline_total`) on a valid document.  For other slices that the run does not raise is not
+  proved (`fit_no_internal_partial` says what is); every other Fitter theorem assumes `.ok`.
+  Helpers: Proofs/Respects.lean, RangeOps.lean, Fitter.lean, FitterText.lean, FitRaises.lean,
+  FitMeasure.lean, FitScan.lean, FitTerm.lean, FitLoop.lean, FitTotal.lean, FitDelete.lean, FitInline.lean,
+  FillOrder.lean.
 -/
 import PM.Monitor
 import Proofs.StepToks
@@ -18,6 +25,10 @@ import Proofs.RangeOps
 import Proofs.Fitter
 import Proofs.FitterText
 import Proofs.ReplaceRange
+import Proofs.FitTotal
+import Proofs.FitDelete
+import Proofs.FitInline
+import Proofs.Placement
 import Props.C01
 namespace PM.C11
 open PM
@@ -750,5 +761,330 @@ example :
     replaceRangeCalls S doc 2 3 ⟨[h [120]], 0, 0⟩ = some [(0, 3, ⟨[h [120]], 0, 0⟩)] ∧
     replaceRangeCalls S doc 3 8 ⟨[h [120], p [121]], 1, 1⟩ = some [(3, 8, ⟨[h [120], p [121]], 1, 1⟩)] ∧
     replaceRangeCalls S doc 2 4 Slice.empty = some [(2, 4, Slice.empty)] := by decide
+/-! ## Totality of the fitting loop (theorems about the executable model)
+
+`fitLoop` is the loop `while self.unplaced.size: …` of `Fitter.fit` with a fuel argument.  The
+measure (PM/Fitter.lean `fitMeasure`) is lexicographic in
+(number of nodes of the unplaced content, `bound - open_start` where `bound` is the height of the
+content, number of slice levels — from `open_start` downwards — whose first node the top of the
+frontier does not accept): `place_nodes` removes a node, or (a wrapper hit of pass 2 whose first node
+the frontier item does not take after the wrapper was opened) lowers the third component;
+`open_more` raises `open_start`; `drop_node` removes a node.  The only state on which the body makes
+no progress is: nothing left, `open_start = 0`, `open_end > 0` — `Slice.size` is then negative, which
+Python's `while` treats as true, and the body leaves the state as it is.  That state is reached on
+slices that put a non-leaf node in front of a text node at the top level (an *inline* node with
+content next to text; random schemas only — finding `C11` "non-termination"): the model diverges
+there exactly like the code (`fitLoop_diverges_example`).
+
+All statements are about the model; the exact tie (harness/rangeplan.py `tie_replace_step`) carries
+them to the code on the sampled inputs. -/
+
+/-- the content automata of the schema are deterministic — decidable, evaluated by the driver -/
+abbrev detB := PM.FromDom.detB
+
+theorem detS_of_detB (S : Schema) (h : detB S = true) : DetS S := PM.FromDom.det_of_detB S h
+
+/-- **every iteration makes progress** while there is unplaced content: the measure decreases -/
+theorem fitStep_decreases (S : Schema) (hdet : detB S = true) (st st' : FitState)
+    (hne : st.unplaced.content ≠ []) (h : fitStep S st = .ok st') :
+    fitMeasure st'.unplaced (cpot S st') < fitMeasure st.unplaced (cpot S st) :=
+  fitStep_progress S (detS_of_detB S hdet) st st' hne h
+
+/-- **the one cycle of the loop**: with nothing left to place, `open_start = 0` and `open_end ≠ 0`
+    the body maps the state to itself (and `size = -open_end ≠ 0` keeps the loop going) -/
+theorem fitStep_cycle (S : Schema) (st : FitState) (h : st.stuck) :
+    fitStep S st = .ok st ∧ (st.unplaced.size == 0) = false ∧ ∀ fuel, fitLoop S fuel st = .error .outOfFuel :=
+  ⟨fitStep_stuck S st h, stuck_size st h, fitLoop_stuck S st h⟩
+
+/-- **`fitLoop_outOfFuel_exact`** — the fuel is enough in the exact sense: for every fuel above
+    the measure of the state (in particular the fuel `replaceStep` passes, `fitFuel_suffices`), the
+    loop answers `outOfFuel` iff it reaches the cycle, iff it answers `outOfFuel` for *every* fuel.
+    No hypothesis on the slice or the frontier. -/
+theorem fitLoop_outOfFuel_exact (S : Schema) (hdet : detB S = true) (fuel : Nat) (st : FitState)
+    (hfuel : fitMeasure st.unplaced (cpot S st) < fuel) :
+    (fitLoop S fuel st = .error .outOfFuel ↔ ∃ st', FitReach S st st' ∧ st'.stuck) ∧
+    (fitLoop S fuel st = .error .outOfFuel ↔ ∀ fuel', fitLoop S fuel' st = .error .outOfFuel) :=
+  fitLoop_outOfFuel_iff S (detS_of_detB S hdet) fuel st hfuel
+
+/-- the fuel `replaceStep` passes depends on the slice only and is above the measure of the state
+    `Fitter.__init__` builds -/
+theorem fitFuel_suffices (S : Schema) (st : FitState) :
+    fitMeasure st.unplaced (cpot S st) < fitFuel S st.unplaced := fitFuel_enough S st
+
+/-- the invariant behind `fitLoop_terminates`: established by the guard, kept by every iteration,
+    and it excludes the cycle -/
+theorem termInv_invariant (S : Schema) :
+    (∀ u : Slice, u.termGuard = true → TermInv u) ∧
+    (∀ st st', TermInv st.unplaced → fitStep S st = .ok st' → TermInv st'.unplaced) ∧
+    (∀ st : FitState, TermInv st.unplaced → ¬ st.stuck) :=
+  ⟨fun _ h => TermInv.of_guard h, fun st st' => fitStep_termInv S st st', fun _ h => h.not_stuck⟩
+
+/-- **`fitLoop_terminates`** — for a slice whose top-level content ends in a non-leaf node, or
+    consists of leaf / text nodes only and is closed (`Slice.termGuard`, decidable), the loop does not
+    run out of the fuel `fitFuel`, nor of any fuel above the measure.  (Other slices: see
+    `fitLoop_outOfFuel_exact` — the answer `outOfFuel` is then a proof of divergence, not an
+    artefact of the fuel.) -/
+theorem fitLoop_terminates (S : Schema) (hdet : detB S = true) (st : FitState)
+    (hg : st.unplaced.termGuard = true) (fuel : Nat) (hfuel : fitMeasure st.unplaced (cpot S st) < fuel) :
+    fitLoop S fuel st ≠ .error .outOfFuel :=
+  PM.fitLoop_terminates S (detS_of_detB S hdet) st hg fuel hfuel
+
+/-- **the failure classes of `replace_step`**: it raises; or the loop of `fit` does not end; or the
+    replace-around step would need a negative `insert` -/
+theorem replaceStep_failures (S : Schema) (doc : Node) (f t : Nat) (sl : Slice) (e : FitErr)
+    (h : replaceStep S doc f t sl = .error e) :
+    e = .raises ∨
+    (e = .outOfFuel ∧ ∃ rf st0, doc.resolve f = some rf ∧ fitInit S rf sl = .ok st0 ∧
+      fitLoop S (fitFuel S sl) st0 = .error .outOfFuel) ∨
+    (e = .negInsert ∧ ∃ rf st0 st, doc.resolve f = some rf ∧ fitInit S rf sl = .ok st0 ∧
+      fitLoop S (fitFuel S sl) st0 = .ok st ∧
+      (fsize st.placed : Int) - (st.frontier.length - 1 : Nat) - rf.depth < 0) :=
+  replaceStep_err S doc f t sl e h
+
+/-- **`replace_step` answers `outOfFuel` only when the loop of `fit` reaches its cycle** -/
+theorem replaceStep_outOfFuel_cycle (S : Schema) (hdet : detB S = true) (doc : Node) (f t : Nat) (sl : Slice)
+    (h : replaceStep S doc f t sl = .error .outOfFuel) :
+    ∃ rf st0 st', doc.resolve f = some rf ∧ fitInit S rf sl = .ok st0 ∧ FitReach S st0 st' ∧ st'.stuck :=
+  replaceStep_outOfFuel_stuck S (detS_of_detB S hdet) doc f t sl h
+
+/-- … and never for a slice that satisfies the guard -/
+theorem replaceStep_not_outOfFuel (S : Schema) (hdet : detB S = true) (doc : Node) (f t : Nat) (sl : Slice)
+    (hg : sl.termGuard = true) : replaceStep S doc f t sl ≠ .error .outOfFuel :=
+  PM.replaceStep_not_outOfFuel S (detS_of_detB S hdet) doc f t sl hg
+
+/-- **the divergence, exhibited** (`fitLoop_diverges_example`): schema `doc: "hr | p"`, `p: "inline*"`,
+    inline node `il: "text*"`; the slice `<il("x"), "ab">(0,0)` — the content of the paragraph of the
+    valid document `doc(p(il("x"), "ab"))` — inserted at position 1 of `doc(hr)`, where nothing of
+    it fits.  `open_more` opens `il` and sets `open_end = 1`; `"x"`/`il` and then `"ab"` are dropped;
+    the third iteration ends in `<>(0,1)` with `size = -1`: the cycle.  So `replaceStep` answers
+    `outOfFuel` (by `fitLoop_outOfFuel_exact`: for every fuel), the guard is false, and the real
+    `replace_step` does not return on this input (checked on /repo; upstream has the same loop). -/
+example :
+    let nt (name : String) (isText inl leaf inlc : Bool) (dfa : Array DfaState) : NodeType :=
+      { name := name, isText := isText, isInline := inl, isLeaf := leaf, isAtom := leaf,
+        inlineContent := inlc, isolating := false, defining := false, code := false,
+        dfa := dfa, markSet := none, attrs := [] }
+    let S : Schema := { nodes := #[nt "doc" false false false false #[⟨false, [(1, 1), (4, 1)]⟩, ⟨true, []⟩],
+                                   nt "hr" false false true false #[⟨true, []⟩],
+                                   nt "il" false true false true #[⟨true, [(3, 0)]⟩],
+                                   nt "text" true true true false #[⟨true, []⟩],
+                                   nt "p" false false false true #[⟨true, [(2, 0), (3, 0)]⟩]],
+                        marks := #[], top := 0, textTy := 3 }
+    let doc := Node.elem 0 [] [] [.leaf 1 [] []]
+    let sl : Slice := ⟨[.elem 2 [] [] [.text [120] []], .text [97, 98] []], 0, 0⟩
+    detB S = true ∧ sl.wf = true ∧ sl.termGuard = false ∧
+    (match replaceStep S doc 1 1 sl with | .error .outOfFuel => true | _ => false) = true ∧
+    (match doc.resolve 1 with
+     | some rf =>
+       (match (do let s0 ← fitInit S rf sl; let s1 ← fitStep S s0; let s2 ← fitStep S s1; fitStep S s2) with
+        | .ok s3 => decide s3.stuck && s3.unplaced == ⟨[], 0, 1⟩ &&
+            (match fitStep S s3 with | .ok s4 => s4.unplaced == s3.unplaced | _ => false)
+        | _ => false)
+     | none => false) = true := by decide +kernel
+
+/-! ### no internal outcome, the general corollary (partial)
+
+FULL STATEMENTS AIMED AT (not proved in general):
+
+`fit_no_internal` : `detB S → C01.Valid S doc → f ≤ t ≤ size doc → sl.wf → sl.noPartialNode S →
+  (slice nodes schema-valid) → replaceStep S doc f t sl ≠ .error .raises ∧ ≠ .error .negInsert`
+`replaceStep_total` : … `→ ∃ r, replaceStep S doc f t sl = .ok r`.
+
+What is proved: the failure classes (`replaceStep_failures`), that `outOfFuel` is excluded by the
+termination guard (`replaceStep_not_outOfFuel`), hence `fit_no_internal_partial` /
+`replaceStep_total_partial` below; and the full statement for the *empty* slice — every deletion —
+in the next section (`delete_total`).  What is missing for non-empty slices: an invariant of
+`FitState` strong enough to show that none of the `raises` of the loop body is reached.  The places
+where the model (= the code) raises inside the loop are: `content_at` / `first_child` on an empty
+fragment in `find_fittable`, `open_more`, `drop_node`, `drop_from_fragment` (when `open_start`
+points below the first-child chain — `place_nodes` keeps `open_start` when it stops short of the end
+of a fragment above the open level, also upstream); `fill_before` answering `None` in
+`close_node_start` (the children of an open node of the slice are not completable); creating a filler
+node of a type with required attributes; `add_to_fragment` below the last-child chain of `placed`;
+`content_match_at(child_count)` on a partial node in `place_nodes` (the recorded finding
+`C11-fitter-partial-node`, excluded by the guard `Slice.noPartialNode`, PM/Fitter.lean, whose
+negation is the finding's class — compared exactly with harness/findings.py `partial_node_class`).
+The relational tie `fitGuards` (harness/rangeplan.py) checks on every generated request:
+guards true ⇒ the real `replace_step` did not raise and did return. -/
+
+/-- **`fit_no_internal_partial`** — with deterministic automata and a slice satisfying the
+    termination guard, `replace_step` does not end in `outOfFuel`: it returns, raises, or would need a
+    negative `insert`.  (Missing for the full `fit_no_internal`: excluding `raises` and `negInsert`
+    under `Slice.noPartialNode`; see the comment above.) -/
+theorem fit_no_internal_partial (S : Schema) (hdet : detB S = true) (doc : Node) (f t : Nat) (sl : Slice)
+    (hg : sl.termGuard = true) (e : FitErr) (h : replaceStep S doc f t sl = .error e) :
+    e = .raises ∨ e = .negInsert := by
+  rcases replaceStep_failures S doc f t sl e h with he | ⟨he, _⟩ | ⟨he, _⟩
+  · exact .inl he
+  · subst he
+    exact absurd h (replaceStep_not_outOfFuel S hdet doc f t sl hg)
+  · exact .inr he
+
+/-- **`replaceStep_total_partial`** — totality of the model up to raising: under the same
+    hypotheses `replaceStep` returns `None`, or a step — which then respects the request
+    (`fitter_respects`) —, or raises / needs a negative insert -/
+theorem replaceStep_total_partial (S : Schema) (hdet : detB S = true) (doc : Node) (f t : Nat) (sl : Slice)
+    (hft : f ≤ t) (hwf : sl.wf = true) (hg : sl.termGuard = true) :
+    replaceStep S doc f t sl = .ok none ∨
+    (∃ st, replaceStep S doc f t sl = .ok (some st) ∧
+      ((∀ F T G1 G2 sl' ins b, st = .replaceAround F T G1 G2 sl' ins b →
+        noText ((sliceToks' sl').drop ins) = true) → respects (ftoks doc.kids) f t sl st = true)) ∨
+    replaceStep S doc f t sl = .error .raises ∨ replaceStep S doc f t sl = .error .negInsert := by
+  cases h : replaceStep S doc f t sl with
+  | ok r =>
+    cases r with
+    | none => exact .inl rfl
+    | some st => exact .inr (.inl ⟨st, rfl, fun htail => fitter_respects S doc f t sl st hft hwf h htail⟩)
+  | error e =>
+    rcases fit_no_internal_partial S hdet doc f t sl hg e h with he | he
+    · subst he; exact .inr (.inr (.inl rfl))
+    · subst he; exact .inr (.inr (.inr rfl))
+
+/-! ### totality for deletions (the empty slice): full statement
+
+`Transform.delete(f, t)` is `replace(f, t, Slice.empty)`, i.e. `replace_step(doc, f, t, Slice.empty)`
+followed by `step`.  With the empty slice the loop of `fit` has nothing to place; `Fitter.__init__`,
+`must_move_inline` and `close` remain.  Hypotheses, all decidable and evaluated by the driver on the
+generated requests (op `fitGuards`):
+* `detB S` — deterministic content automata;
+* `S.fillersOKB` — every generatable type on an edge of an automaton can be created and filled
+  (otherwise `fill_before` answers with a type `create_and_fill` cannot build: the code puts `None`
+  into a fragment or recurses without bound);
+* `C01.Valid S doc` (`Node.check`) and `S.nodeAttrsOK doc` — element nodes have non-leaf, non-text
+  types and attributes `type.create` accepts (true of every node built through the schema; `check`
+  does not look at attributes);
+* the top node is not a textblock — otherwise `must_move_inline` can reach `to.after(0)`, which raises
+  (schema `doc: "(text | fn)*"`, inline `fn: "para+"`: deleting from inside the `para` to a position in
+  the document's own text raises ValueError in the code and in the model). -/
+
+/-- **`delete_total`** — for every range `f ≤ t` inside a valid document, `replace_step` with the
+    empty slice returns `None` or a step: it does not raise, does not run out of fuel, and never needs
+    a negative `insert`.  (Totality of the model; the exact tie carries it to the code on the sampled
+    inputs.  That the emitted step then *applies* is C01's subject, not shown here.) -/
+theorem delete_total (S : Schema) (hdet : detB S = true) (hfill : S.fillersOKB = true) (doc : Node) (f t : Nat)
+    (hv : C01.Valid S doc) (hattrs : S.nodeAttrsOK doc = true)
+    (htop : S.isTextblockO (S.tyOf doc) = false) (hft : f ≤ t) (ht : t ≤ fsize doc.kids) :
+    ∃ r, replaceStep S doc f t Slice.empty = .ok r :=
+  replaceStep_empty_total S (detS_of_detB S hdet) (fillersOK_of_B S hfill) doc f t hv hattrs htop
+    (by omega) ht
+
+/-- … and the step it returns respects the request (`fitter_respects`; for a replace-around step up
+    to the same monitored conjunct as there) -/
+theorem delete_total_respects (S : Schema) (hdet : detB S = true) (hfill : S.fillersOKB = true) (doc : Node)
+    (f t : Nat) (hv : C01.Valid S doc) (hattrs : S.nodeAttrsOK doc = true)
+    (htop : S.isTextblockO (S.tyOf doc) = false) (hft : f ≤ t) (ht : t ≤ fsize doc.kids) :
+    replaceStep S doc f t Slice.empty = .ok none ∨
+    ∃ st, replaceStep S doc f t Slice.empty = .ok (some st) ∧
+      ((∀ F T G1 G2 sl' ins b, st = .replaceAround F T G1 G2 sl' ins b →
+        noText ((sliceToks' sl').drop ins) = true) → respects (ftoks doc.kids) f t Slice.empty st = true) := by
+  obtain ⟨r, hr⟩ := delete_total S hdet hfill doc f t hv hattrs htop hft ht
+  cases r with
+  | none => exact .inl hr
+  | some st =>
+    exact .inr ⟨st, hr, fun htail => fitter_respects S doc f t Slice.empty st hft (by decide) hr htail⟩
+
+/-- **`deleteRange_total`** — `Transform.delete_range(f, t)` as well: the widening arrives at its call
+    of `delete` (no position fails to resolve, no `content_match_at` on invalid content, no
+    `before`/`after` outside the path) and that deletion returns -/
+theorem deleteRange_total (S : Schema) (hdet : detB S = true) (hfill : S.fillersOKB = true) (doc : Node) (f t : Nat)
+    (hv : C01.Valid S doc) (hattrs : S.nodeAttrsOK doc = true)
+    (htop : S.isTextblockO (S.tyOf doc) = false) (hft : f ≤ t) (ht : t ≤ fsize doc.kids) :
+    ∃ r, deleteRangeStep S doc f t = .ok r := by
+  obtain ⟨⟨a, b⟩, hp⟩ := deleteRangeTarget_some S doc f t hv (by omega) ht
+  obtain ⟨h1, h2, h3, _, _⟩ := deleteRange_extends_structurally S doc f t a b hp
+  unfold deleteRangeStep
+  rw [hp]
+  exact delete_total S hdet hfill doc a b hv hattrs htop (by omega) h3
+
+/-- the hypotheses are satisfiable and the Fitter is really reached: `doc(p("ab"), p("cd"))` with
+    `doc: "paragraph+"`, `paragraph: "text*"`; deleting `[2, 6)` joins the paragraphs (not a trivial fit) -/
+example :
+    let nt (name : String) (isText inl : Bool) (dfa : Array DfaState) : NodeType :=
+      { name := name, isText := isText, isInline := isText, isLeaf := isText, isAtom := isText,
+        inlineContent := inl, isolating := false, defining := false, code := false,
+        dfa := dfa, markSet := none, attrs := [] }
+    let S : Schema := { nodes := #[nt "doc" false false #[⟨false, [(1, 1)]⟩, ⟨true, [(1, 1)]⟩],
+                                   nt "paragraph" false true #[⟨true, [(2, 0)]⟩],
+                                   nt "text" true false #[⟨true, []⟩]],
+                        marks := #[], top := 0, textTy := 2 }
+    let doc := Node.elem 0 [] [] [.elem 1 [] [] [.text [97, 98] []], .elem 1 [] [] [.text [99, 100] []]]
+    detB S = true ∧ S.fillersOKB = true ∧ S.checkNode doc = true ∧ S.nodeAttrsOK doc = true ∧
+    S.isTextblockO (S.tyOf doc) = false ∧
+    fitsTriviallyO S doc 2 6 Slice.empty = some false ∧
+    (match replaceStep S doc 2 6 Slice.empty with
+     | .ok (some (.replace 2 6 sl _)) => sl == Slice.empty
+     | _ => false) = true := by decide +kernel
+
+/-! ### totality for inserting inline leaves (typed text, hard breaks, images): full statement
+
+A closed slice whose content consists of leaf / text nodes (`Slice.inlineLeaves`) — what `insert`,
+`replace_with` and typing produce for inline content.  Here the loop of `fit` does run; it keeps the
+invariant `LoopInv` (Proofs/FitInline.lean): every frontier entry holds a match, `placed` has a
+last-child chain as long as the frontier, the unplaced slice stays closed and flat (so `open_start`
+stays 0 and only slice level 0 is ever looked at), and `placed` is large enough for a
+non-negative `insert`.  One more decidable hypothesis on the schema, `Schema.wrapOKB`: wrapper types
+are not the text type, and a type for which pass 2 of `find_fittable` answers a non-empty wrapping
+does not match right after the first wrapper either (otherwise `place_nodes`, which reads
+`frontier[frontier_depth]` after opening the wrappers, places the node *next to* the wrapper and
+`placed` and the frontier fall out of step — also upstream). -/
+
+/-- **`insertInline_total`** — for every range `f ≤ t` inside a valid document and every closed slice
+    of leaf / text nodes of the schema, `replace_step` returns `None` or a step: it does not raise,
+    does not run out of fuel, never needs a negative `insert` -/
+theorem insertInline_total (S : Schema) (hdet : detB S = true) (hfill : S.fillersOKB = true)
+    (hwrap : S.wrapOKB = true) (doc : Node) (f t : Nat) (sl : Slice) (hsl : sl.inlineLeaves S = true)
+    (hv : C01.Valid S doc) (hattrs : S.nodeAttrsOK doc = true)
+    (htop : S.isTextblockO (S.tyOf doc) = false) (hft : f ≤ t) (ht : t ≤ fsize doc.kids) :
+    ∃ r, replaceStep S doc f t sl = .ok r :=
+  replaceStep_inline_total S (detS_of_detB S hdet) (fillersOK_of_B S hfill) (wrapOK_of_B S hwrap) doc f t sl hsl
+    hv hattrs htop (by omega) ht
+
+/-- the invariant of the loop behind `insertInline_total`: every iteration goes through and keeps it -/
+theorem loopInv_step (S : Schema) (hdet : detB S = true) (hfill : S.fillersOKB = true) (hwrap : S.wrapOKB = true)
+    (D : Nat) (st : FitState) (inv : LoopInv S D st) : ∃ st', fitStep S st = .ok st' ∧ LoopInv S D st' :=
+  fitStep_ok S (detS_of_detB S hdet) (fillersOK_of_B S hfill) (wrapOK_of_B S hwrap) D st inv
+
+/-- the hypotheses are satisfiable and the loop really runs: typing `"x"` between the two paragraphs of
+    `doc(p("ab"), p("cd"))` (position 4, where text does not fit: pass 2 wraps it in a paragraph) -/
+example :
+    let nt (name : String) (isText inl : Bool) (dfa : Array DfaState) : NodeType :=
+      { name := name, isText := isText, isInline := isText, isLeaf := isText, isAtom := isText,
+        inlineContent := inl, isolating := false, defining := false, code := false,
+        dfa := dfa, markSet := none, attrs := [] }
+    let S : Schema := { nodes := #[nt "doc" false false #[⟨false, [(1, 1)]⟩, ⟨true, [(1, 1)]⟩],
+                                   nt "paragraph" false true #[⟨true, [(2, 0)]⟩],
+                                   nt "text" true false #[⟨true, []⟩]],
+                        marks := #[], top := 0, textTy := 2 }
+    let doc := Node.elem 0 [] [] [.elem 1 [] [] [.text [97, 98] []], .elem 1 [] [] [.text [99, 100] []]]
+    let sl : Slice := ⟨[.text [120] []], 0, 0⟩
+    detB S = true ∧ S.fillersOKB = true ∧ S.wrapOKB = true ∧ sl.inlineLeaves S = true ∧
+    S.checkNode doc = true ∧ S.nodeAttrsOK doc = true ∧ S.isTextblockO (S.tyOf doc) = false ∧
+    fitsTriviallyO S doc 4 4 sl = some false ∧
+    (match replaceStep S doc 4 4 sl with
+     | .ok (some (.replace 4 4 sl' _)) => sl' == ⟨[.elem 1 [] [] [.text [120] []]], 0, 0⟩
+     | _ => false) = true := by decide +kernel
+
+/-! ### the fuelled searches the Fitter calls (PM/FillOrder.lean) -/
+
+/-- **`fill_before`'s fuel is enough**: `none` means that no filling exists (`isFill` is false for
+    every candidate), and an answer is a filling -/
+theorem fillBeforeTypes_exact (S : Schema) (d : Dfa) (hdet : ∀ q, ((d.edgesOf q).map (·.1)).Nodup)
+    (hd : ∀ q t q', (t, q') ∈ d.edgesOf q → q' < d.size) (q : Nat) (after : List TypeId) (toEnd : Bool) :
+    (∀ tys, fillBeforeTypes S d q after toEnd = some tys → isFill d S.generatable q after toEnd tys = true) ∧
+    (fillBeforeTypes S d q after toEnd = none → ∀ fill, isFill d S.generatable q after toEnd fill = false) := by
+  refine ⟨fun tys h => ?_, fun h fill => fillBeforeTypes_complete S d hd q after toEnd h fill⟩
+  rw [fillBeforeTypes_eq] at h
+  exact fillBefore_sound_aux d S.generatable q after toEnd hdet tys h
+
+/-- **`find_wrapping`'s fuel is enough**: `none` means that no position reachable through wrapper
+    nodes accepts the target; an answer is `[]` exactly when the target matches right here, and
+    otherwise its innermost wrapper accepts the target as first child -/
+theorem findWrappingTypes_exact (S : Schema) (d : Dfa) (q : Nat) (target : TypeId)
+    (hwf : ∀ x t s, (t, s) ∈ (wDfa S d x).edgesOf (wState q x) → t < S.nodes.size) :
+    (findWrappingTypes S d q target = none → ∀ x m, WReach S d q x m → ¬ WGoal S d q target x) ∧
+    (∀ w, findWrappingTypes S d q target = some w →
+      (w = [] ∧ (d.matchType q target).isSome = true) ∨
+      (∃ t c, w = c ++ [t] ∧ ((S.dfa t).matchType 0 target).isSome = true)) :=
+  ⟨findWrappingTypes_complete S d q target hwf, fun w h => findWrappingTypes_spec S d q target w h⟩
 
 end PM.C11
